@@ -153,3 +153,24 @@ _P["C05"] = {
     "trusted_base": _DEC_TRUSTED, "assumptions": [],
     "harness_timeout": {"quick": 900, "thorough": 3400},
 }
+
+_P["C04"] = {
+    "explanation": "Theorems C04_* (Properties/C04.v) over Model/Parse.v; correspondence: spec-conformant switch messages from an independent encoder, the parsed fields compared with what was written.",
+    "trusted_base": _DEC_TRUSTED + ["harness/spec_sw.go: the independent encoder of switch messages, written from OpenFlow 1.3.5 (match / instruction / action bytes inside them come from the library's element encoders, which C02/C03 check against the specification)"],
+    "assumptions": ["packet-in payloads are empty or complete Ethernet frames (a payload of 1..13 bytes is reported as an error by the library)"],
+    "harness_timeout": {"quick": 900, "thorough": 3400},
+}
+
+_P["C12"] = {
+    "explanation": "Theorems C12_* (Properties/C12.v) over Model/Ownership.v (heap of buffers, Own/View cells): a decoder whose sites all copy returns a message no later write can reach; one exercised site keeping a sub-slice "
+                   "is exposed by the complement overwrite; the two are indistinguishable right after decoding. That every site of the library copies is re-extracted from /repo's source on every run "
+                   "(harness/srcfacts: view_sites, closure of decoders reachable from Parse; GenProps/C12g.v) and exercised: every generated frame parsed from a slice inside a larger buffer that is then complemented and "
+                   "overwritten with noise, all fields (private and pad fields too) and the re-encoding compared; histories of 60-180 frames through the real MessageStream so that every pool buffer is recycled while earlier messages are held; "
+                   "the encoding observed after the overwrite is also the Parse model's encoding of the original bytes.",
+    "trusted_base": _DEC_TRUSTED + ["Model/Ownership.v: Go slices as (buffer, offset, length) views or private copies; bytes.Buffer.Write and append(dst, src...) copy",
+                                    "harness/srcfacts retention analysis (syntactic; sub-slice expressions rooted at a []byte parameter or a local alias, stored / appended as an element / returned / wrapped by NewBuffer, IP, HardwareAddr)",
+                                    "reflection-based dump of every field (harness/canon.go)"],
+    "assumptions": ["partial: the theorems are about the ownership model; that the library's decoders copy at every site is established by source extraction plus the overwrite runs, not by proof over Go semantics"],
+    "gen_props": ["C12g"],
+    "harness_timeout": {"quick": 900, "thorough": 3400},
+}
